@@ -6,7 +6,15 @@ import (
 )
 
 var vHarnesses = map[string]func(p []int){
-	"H_C01_monobit": func(p []int) { H_C01_monobit(p[0]) },
+	"H_C01_monobit":        func(p []int) { H_C01_monobit(p[0]) },
+	"H_C01_monobit_bytes":  func(p []int) { H_C01_monobit_bytes(p[0]) },
+	"H_C01_selectM":        func(p []int) { H_C01_selectM() },
+	"H_C01_blockfreq":      func(p []int) { H_C01_blockfreq(p[0], p[1]) },
+	"H_C01_blockfreq_auto": func(p []int) { H_C01_blockfreq_auto(p[0]) },
+	"H_C01_poker":          func(p []int) { H_C01_poker(p[0], p[1]) },
+	"H_C01_poker_bytes":    func(p []int) { H_C01_poker_bytes(p[0], p[1]) },
+	"H_C01_overlapping":    func(p []int) { H_C01_overlapping(p[0], p[1]) },
+	"H_C01_apen":           func(p []int) { H_C01_apen(p[0], p[1]) },
 }
 
 func TestVerifReplay(t *testing.T) {
